@@ -63,6 +63,9 @@ def atom_axioms(atoms, present):
         elif k == "ps":
             ax.append(("le", -A))
             ax.append(("le", A - LEN_MAX))
+            kk = Lin.from_key(a[3])
+            if kk.is_const() and kk.c == 0:
+                ax.append(("eq", A))
         elif k == "opq":
             ax.append(("le", -A))
             ax.append(("le", A - INT_MAX.get(a[2], 2**64 - 1)))
